@@ -345,21 +345,23 @@ impl ArangeEntry {
         let address_size = encoding.address_size;
 
         let tuple_length = R::Offset::from_u8(2 * address_size);
-        if tuple_length > input.len() {
-            input.empty();
-            return Ok(None);
-        }
+        loop {
+            if tuple_length > input.len() {
+                input.empty();
+                return Ok(None);
+            }
 
-        let begin = input.read_address(address_size)?;
-        let length = input.read_address(address_size)?;
-        let range = Range { begin, end: 0 };
+            let begin = input.read_address(address_size)?;
+            let length = input.read_address(address_size)?;
+            let range = Range { begin, end: 0 };
 
-        match (begin, length) {
-            // This is meant to be a null terminator, but in practice it can occur
-            // before the end, possibly due to a linker omitting a function and
-            // leaving an unrelocated entry.
-            (0, 0) => Self::parse(input, encoding),
-            _ => Ok(Some(ArangeEntry { range, length })),
+            match (begin, length) {
+                // This is meant to be a null terminator, but in practice it can occur
+                // before the end, possibly due to a linker omitting a function and
+                // leaving an unrelocated entry.
+                (0, 0) => continue,
+                _ => return Ok(Some(ArangeEntry { range, length })),
+            }
         }
     }
 
